@@ -1,12 +1,12 @@
-\* C42 leg A thorough (1): ONE interval (grid 0..7, interval 8), steps {1,2,4} all "common",
-\* min extent off, worlds 1..5; every reachable cache content = histories of any length
+\* C42 leg A thorough (1): ONE interval (grid 0..6, interval 7), steps {1,2,4} all "common",
+\* min extent off, worlds 2,4,5; every reachable cache content = histories of any length
 SPECIFICATION Spec
-CONSTANTS T = 7
+CONSTANTS T = 6
           StepSet = {1, 2, 4}
           Common = {1, 2, 4}
-          Ivs = {8}
+          Ivs = {7}
           MinExt = 100
-          WorldIds = {1, 2, 3, 4, 5}
+          WorldIds = {2, 4, 5}
           GridFix = TRUE
           Unaligned = FALSE
           MaxHist = 0
